@@ -198,7 +198,12 @@ KeyFates(p, m, k) ==
                    [deep |-> <<>>, flat |-> <<Dec(p, "custom", TRUE, <<RepO(k, Int("8"))>>, <<RemO(k)>>, <<e>>)>>, exp |-> <<e>>]}
   IN IF k \notin DOMAIN m
      THEN {none} \cup Plain(AddO(k, Int("7"))) \cup
-          {[deep |-> <<>>, flat |-> <<Dec(p, "base", TRUE, <<AddO(k, Int("7"))>>, <<AddO(k, Int("8"))>>, <<>>)>>, exp |-> <<>>]}
+          {[deep |-> <<>>, flat |-> <<Dec(p, "base", TRUE, <<AddO(k, Int("7"))>>, <<AddO(k, Int("8"))>>, <<>>)>>, exp |-> <<>>],
+           \* both sides add the key with different values and the conflict is cleared: the cleared value is added
+           [deep |-> <<>>, flat |-> <<Dec(p, "clear", TRUE, <<AddO(k, Int("7"))>>, <<AddO(k, Int("8"))>>, <<>>)>>,
+            exp |-> <<AddO(k, Null)>>],
+           [deep |-> <<>>, flat |-> <<Dec(p, "clear", TRUE, <<AddO(k, List(<<Int("7")>>))>>, <<AddO(k, List(<<>>))>>, <<>>)>>,
+            exp |-> <<AddO(k, List(<<>>))>>]}
      ELSE LET v == m[k]
               conf(a) == Dec(p, a, TRUE, <<RepO(k, Int("7"))>>, <<RemO(k)>>, <<>>)
           IN {none} \cup Plain(RemO(k)) \cup Plain(RepO(k, Int("7")))
